@@ -499,24 +499,26 @@ pub mod macros_support {
     pub use std::pin::Pin;
     pub use std::task::Poll;
     pub enum Out2<A, B> { A(A), B(B) }
+    pub enum Out3<A, B, C> { A(A), B(B), C(C) }
 }
 
-/// Model of two-branch `tokio::select!` without preconditions / else: both futures are created,
-/// polled starting from a nondeterministically chosen branch, the first ready one whose pattern
-/// matches wins (a ready branch whose pattern does not match is disabled, as in tokio), and both
-/// futures are dropped before the winning handler runs.
+/// Model of `tokio::select!` with two or three branches, without preconditions / else: all futures are created, polled
+/// starting from a nondeterministically chosen branch (`biased;`: from the first), the first ready one whose pattern
+/// matches wins (a ready branch whose pattern does not match is disabled, as in tokio), and all futures are dropped
+/// before the winning handler runs.  Handlers may be blocks or expressions.
 #[macro_export]
 macro_rules! select {
-    // accepted surface forms (two branches, no preconditions, no else): handlers as blocks or as expressions, optional `biased;`
-    ( biased; $p0:pat = $f0:expr => $h0:block $(,)? $p1:pat = $f1:expr => $h1:block $(,)? ) => { $crate::select!(@go (0u32) ; $p0 = $f0 => $h0 ; $p1 = $f1 => $h1) };
-    ( biased; $p0:pat = $f0:expr => $h0:expr , $p1:pat = $f1:expr => $h1:expr $(,)? ) => { $crate::select!(@go (0u32) ; $p0 = $f0 => { $h0 } ; $p1 = $f1 => { $h1 }) };
-    ( biased; $p0:pat = $f0:expr => $h0:block $(,)? $p1:pat = $f1:expr => $h1:expr $(,)? ) => { $crate::select!(@go (0u32) ; $p0 = $f0 => $h0 ; $p1 = $f1 => { $h1 }) };
-    ( biased; $p0:pat = $f0:expr => $h0:expr , $p1:pat = $f1:expr => $h1:block $(,)? ) => { $crate::select!(@go (0u32) ; $p0 = $f0 => { $h0 } ; $p1 = $f1 => $h1) };
-    ( $p0:pat = $f0:expr => $h0:block $(,)? $p1:pat = $f1:expr => $h1:block $(,)? ) => { $crate::select!(@go ($crate::verif::choose(2)) ; $p0 = $f0 => $h0 ; $p1 = $f1 => $h1) };
-    ( $p0:pat = $f0:expr => $h0:expr , $p1:pat = $f1:expr => $h1:expr $(,)? ) => { $crate::select!(@go ($crate::verif::choose(2)) ; $p0 = $f0 => { $h0 } ; $p1 = $f1 => { $h1 }) };
-    ( $p0:pat = $f0:expr => $h0:block $(,)? $p1:pat = $f1:expr => $h1:expr $(,)? ) => { $crate::select!(@go ($crate::verif::choose(2)) ; $p0 = $f0 => $h0 ; $p1 = $f1 => { $h1 }) };
-    ( $p0:pat = $f0:expr => $h0:expr , $p1:pat = $f1:expr => $h1:block $(,)? ) => { $crate::select!(@go ($crate::verif::choose(2)) ; $p0 = $f0 => { $h0 } ; $p1 = $f1 => $h1) };
-    ( @go ($start:expr) ; $p0:pat = $f0:expr => $h0:block ; $p1:pat = $f1:expr => $h1:block ) => {{
+    // ---- normalisation: one branch at a time into `{ pat = fut => { handler } }` groups
+    (@norm ($($start:tt)*) [$($acc:tt)*] $p:pat = $f:expr => $h:block , $($rest:tt)*) => { $crate::select!(@norm ($($start)*) [$($acc)* { $p = $f => $h }] $($rest)*) };
+    (@norm ($($start:tt)*) [$($acc:tt)*] $p:pat = $f:expr => $h:block $($rest:tt)*) => { $crate::select!(@norm ($($start)*) [$($acc)* { $p = $f => $h }] $($rest)*) };
+    (@norm ($($start:tt)*) [$($acc:tt)*] $p:pat = $f:expr => $h:expr , $($rest:tt)*) => { $crate::select!(@norm ($($start)*) [$($acc)* { $p = $f => { $h } }] $($rest)*) };
+    (@norm ($($start:tt)*) [$($acc:tt)*] $p:pat = $f:expr => $h:expr) => { $crate::select!(@norm ($($start)*) [$($acc)* { $p = $f => { $h } }]) };
+    (@norm (biased) [{ $p0:pat = $f0:expr => $h0:block } { $p1:pat = $f1:expr => $h1:block }]) => { $crate::select!(@go2 (0u32) ; $p0 = $f0 => $h0 ; $p1 = $f1 => $h1) };
+    (@norm (random) [{ $p0:pat = $f0:expr => $h0:block } { $p1:pat = $f1:expr => $h1:block }]) => { $crate::select!(@go2 ($crate::verif::choose(2)) ; $p0 = $f0 => $h0 ; $p1 = $f1 => $h1) };
+    (@norm (biased) [{ $p0:pat = $f0:expr => $h0:block } { $p1:pat = $f1:expr => $h1:block } { $p2:pat = $f2:expr => $h2:block }]) => { $crate::select!(@go3 (0u32) ; $p0 = $f0 => $h0 ; $p1 = $f1 => $h1 ; $p2 = $f2 => $h2) };
+    (@norm (random) [{ $p0:pat = $f0:expr => $h0:block } { $p1:pat = $f1:expr => $h1:block } { $p2:pat = $f2:expr => $h2:block }]) => { $crate::select!(@go3 ($crate::verif::choose(3)) ; $p0 = $f0 => $h0 ; $p1 = $f1 => $h1 ; $p2 = $f2 => $h2) };
+    // ---- two branches
+    ( @go2 ($start:expr) ; $p0:pat = $f0:expr => $h0:block ; $p1:pat = $f1:expr => $h1:block ) => {{
         let __out = {
             let mut __f0 = $f0;
             let mut __f1 = $f1;
@@ -554,6 +556,60 @@ macro_rules! select {
             _ => unreachable!(),
         }
     }};
+    // ---- three branches
+    ( @go3 ($start:expr) ; $p0:pat = $f0:expr => $h0:block ; $p1:pat = $f1:expr => $h1:block ; $p2:pat = $f2:expr => $h2:block ) => {{
+        let __out = {
+            let mut __f0 = $f0;
+            let mut __f1 = $f1;
+            let mut __f2 = $f2;
+            // SAFETY: the futures are not moved after being pinned; they are dropped in place.
+            let mut __f0 = unsafe { $crate::macros_support::Pin::new_unchecked(&mut __f0) };
+            let mut __f1 = unsafe { $crate::macros_support::Pin::new_unchecked(&mut __f1) };
+            let mut __f2 = unsafe { $crate::macros_support::Pin::new_unchecked(&mut __f2) };
+            let __start: u32 = $start;
+            let mut __dis0 = false;
+            let mut __dis1 = false;
+            let mut __dis2 = false;
+            $crate::macros_support::poll_fn(|cx| {
+                use $crate::macros_support::{Future, Out3, Poll};
+                for __k in 0..3u32 {
+                    let __b = (__start + __k) % 3;
+                    if __b == 0 {
+                        if !__dis0 {
+                            if let Poll::Ready(v) = __f0.as_mut().poll(cx) {
+                                #[allow(irrefutable_let_patterns, unused_variables)]
+                                if let $p0 = &v { return Poll::Ready(Out3::A(v)); } else { __dis0 = true; }
+                            }
+                        }
+                    } else if __b == 1 {
+                        if !__dis1 {
+                            if let Poll::Ready(v) = __f1.as_mut().poll(cx) {
+                                #[allow(irrefutable_let_patterns, unused_variables)]
+                                if let $p1 = &v { return Poll::Ready(Out3::B(v)); } else { __dis1 = true; }
+                            }
+                        }
+                    } else if !__dis2 {
+                        if let Poll::Ready(v) = __f2.as_mut().poll(cx) {
+                            #[allow(irrefutable_let_patterns, unused_variables)]
+                            if let $p2 = &v { return Poll::Ready(Out3::C(v)); } else { __dis2 = true; }
+                        }
+                    }
+                }
+                if __dis0 && __dis1 && __dis2 { panic!("all branches are disabled and there is no else branch"); }
+                Poll::Pending
+            }).await
+        };
+        #[allow(unreachable_patterns)]
+        match __out {
+            $crate::macros_support::Out3::A($p0) => $h0,
+            $crate::macros_support::Out3::B($p1) => $h1,
+            $crate::macros_support::Out3::C($p2) => $h2,
+            _ => unreachable!(),
+        }
+    }};
+    // ---- entry points
+    ( biased; $($t:tt)* ) => { $crate::select!(@norm (biased) [] $($t)*) };
+    ( $($t:tt)* ) => { $crate::select!(@norm (random) [] $($t)*) };
 }
 
 /// `tokio::pin!`: pins a value on the stack.
